@@ -65,6 +65,14 @@ func genMulti(c *Case, r *simrt.Rand, tier string) {
 						cb.Ops = append(cb.Ops, KV{Op: "del", K: key})
 					}
 				}
+				if r.Chance(0.4) {
+					// a grandchild of the writer's own child collection
+					gb := &BatchSpec{Ops: []KV{{Op: "set", K: []byte("g0"), V: stamp}}}
+					if r.Chance(0.5) {
+						gb.Ops = append(gb.Ops, KV{Op: "set", K: []byte("g1"), V: stamp})
+					}
+					cb.Kids = map[string]*BatchSpec{"gc": gb}
+				}
 				b.Kids = map[string]*BatchSpec{writerChild(w): cb}
 			}
 			prog = append(prog, Op{Kind: "batch", B: b})
@@ -153,6 +161,7 @@ type multiState struct {
 	pending            int
 	overlap            int
 	kids               bool
+	segsPerBatch       int
 }
 
 func (e *Exec) isWriter(prog []Op) bool {
@@ -180,6 +189,9 @@ func (e *Exec) runMulti() {
 			if op.Kind == "batch" {
 				if len(op.B.Kids) > 0 {
 					md.kids = true
+				}
+				if n := collectionsTouched(op.B); n > md.segsPerBatch {
+					md.segsPerBatch = n
 				}
 				h.ApplyBatch(op.B)
 			}
@@ -334,6 +346,9 @@ func (e *Exec) driver(id int, prog []Op) {
 				return
 			}
 			md.kids = true
+			if md.segsPerBatch < 2 {
+				md.segsPerBatch = 2
+			}
 			e.probe("child-only-batch")
 		case "notify":
 			if md.closeInv > 0 {
@@ -503,10 +518,10 @@ func (e *Exec) statsSample() {
 	if limit <= 0 {
 		limit = 10
 	}
-	if e.md.kids {
-		// every generated batch has one top-level segment and at most one
-		// child segment, and the gauge counts both
-		limit *= 2
+	if e.md.segsPerBatch > 1 {
+		// the gauge counts the segments of every collection level a batch
+		// touches (top level, child, grandchild)
+		limit *= e.md.segsPerBatch
 	}
 	e.out.Checks++
 	if int(st.CurDirtyTopSegments) > limit {
@@ -665,4 +680,19 @@ func (e *Exec) finalMultiRead() {
 	}
 	sort.Strings(keys)
 	_ = keys
+}
+
+// collectionsTouched: number of collections (levels) a batch writes to.
+func collectionsTouched(b *BatchSpec) int {
+	if b == nil {
+		return 0
+	}
+	n := 0
+	if len(b.Ops) > 0 {
+		n = 1
+	}
+	for _, c := range b.Kids {
+		n += collectionsTouched(c)
+	}
+	return n
 }
